@@ -18,7 +18,8 @@ Further vocabulary (`PtnModel/Proofs/EvoCanon.lean`, `EvoDmrg.lean`): `normSq ψ
 `energy ψ H d = Σ_{σ,τ} conj(ψ[σ]) H[σ,τ] ψ[τ]` over the digit lists `digitsU d L` (dense meaning `MPS.amp`, `MPO.elem`);
 `DenseLower H d μ` : `μ Σ|x_σ|² ≤ Re Σ conj(x_σ) H[σ,τ] x_τ` for *every* dense vector `x` (e.g. `μ` = the exact ground-state
 energy of the dense operator); `SweepCtx k H qd` : the kernel contracts (`C01.QRKernel k.dqr`, `NormContract k.cnorm`,
-`C15.EighContract k.deigh`), `H` shaped with physical dimension `len qd` and Hermitian as a dense matrix, `len qd ≥ 1`.
+`C15.EighAt … k.deigh … numiter` for all Lanczos runs with `numiter` iterations — implied by `C15.EighContract k.deigh`,
+`SweepCtx.of_contract`), `H` shaped with physical dimension `len qd` and Hermitian as a dense matrix, `len qd ≥ 1`.
 
 Proved here:
 * `local_ritz` — the site-local optimisation `_minimize_local_energy` returns a normalised tensor whose local energy is the
@@ -106,8 +107,9 @@ theorem qr_step_dense_right {H : MPO 𝕜} {qd : List Int} {s : Sweep 𝕜} {j :
 `L ≥ 2` sites, an admissible start state, every number of sweeps `≥ 1` and every number of Lanczos iterations, if
 `calculate_ground_state_local_singlesite` returns `(ψ', en)` then `en` has one entry per sweep, `Σ_σ |ψ'[σ]|² = 1`, and
 `⟨ψ'|H|ψ'⟩` equals the last entry of `en`. -/
-theorem dmrg1_energy_consistent {k : EvoKernels 𝕜 ℝ} {H : MPO 𝕜} {ψ ψ' : MPS 𝕜} (ctx : SweepCtx k H ψ.qd)
-    (hL2 : 2 ≤ H.A.length) (hadm : Admissible ψ) {numsweeps numiter : Nat} (hns : 1 ≤ numsweeps) {en : List ℝ}
+theorem dmrg1_energy_consistent {k : EvoKernels 𝕜 ℝ} {H : MPO 𝕜} {ψ ψ' : MPS 𝕜} {numiter : Nat}
+    (ctx : SweepCtx k H ψ.qd numiter)
+    (hL2 : 2 ≤ H.A.length) (hadm : Admissible ψ) {numsweeps : Nat} (hns : 1 ≤ numsweeps) {en : List ℝ}
     (h : dmrgSinglesite k H ψ numsweeps numiter = .ok (ψ', en)) :
     en.length = numsweeps ∧ ∑ σ ∈ digitsU ψ.qd.length ψ'.A.length, ‖ψ'.amp σ‖ ^ 2 = 1 ∧
       ∃ elast, en.getLast? = some elast ∧ energy ψ' H ψ.qd.length = ((elast : ℝ) : 𝕜) := by
@@ -129,8 +131,9 @@ theorem dmrg1_energy_consistent {k : EvoKernels 𝕜 ℝ} {H : MPO 𝕜} {ψ ψ'
 * `μ ≤ e` for every lower bound `μ` of the dense operator (in particular its exact ground-state energy),
 * `e ‖ψ‖² ≤ ⟨ψ|H|ψ⟩` for the start state `ψ` (the energy of the normalised start state is not exceeded; `⟨ψ|H|ψ⟩` is real),
 and the sequence of reported energies is non-increasing. -/
-theorem dmrg1_variational {k : EvoKernels 𝕜 ℝ} {H : MPO 𝕜} {ψ ψ' : MPS 𝕜} (ctx : SweepCtx k H ψ.qd)
-    (hL2 : 2 ≤ H.A.length) (hadm : Admissible ψ) {numsweeps numiter : Nat} {en : List ℝ}
+theorem dmrg1_variational {k : EvoKernels 𝕜 ℝ} {H : MPO 𝕜} {ψ ψ' : MPS 𝕜} {numiter : Nat}
+    (ctx : SweepCtx k H ψ.qd numiter)
+    (hL2 : 2 ≤ H.A.length) (hadm : Admissible ψ) {numsweeps : Nat} {en : List ℝ}
     (h : dmrgSinglesite k H ψ numsweeps numiter = .ok (ψ', en)) :
     (∀ e ∈ en, (∀ μ, DenseLower H ψ.qd.length μ → μ ≤ e) ∧
       e * ∑ σ ∈ digitsU ψ.qd.length ψ.A.length, ‖ψ.amp σ‖ ^ 2 ≤ RCLike.re (energy ψ H ψ.qd.length)) ∧
